@@ -7,6 +7,7 @@ CONSTANTS
   Consumers = {"c1"}
   NOffer = 2
   NTake = 1
+  Kinds = {"take", "poll"}
   WithClose = TRUE
   GuardedClose = FALSE
 INVARIANTS Inv_NoLoaderPanic
